@@ -31,7 +31,9 @@
 //	hold <graph>        from the cold start, faults in every state, plus the task-delay deviation
 //	                    Xh(i<j): the exchange fetches and stores j's advertisement at i, but the
 //	                    ribUpdate task spawned for it is held back, whatever events follow (X, Dc,
-//	                    LD, RD, ...), until the default event Rl releases it.
+//	                    LD, RD, ...), until the default event Rl releases it, or until DcR(i): the
+//	                    held tasks of i race checkDeadNeighbors for dv.mutex (real goroutines): their
+//	                    pre-lock part runs first, then the dead check, then the rest.
 //	faultany <graph>    (thorough) as fault, from the cold start, faults injected in every state.
 //
 // Clauses: C18.adv (every transition: no advertisement entry, on the wire or in Rib.Advert(), with
@@ -156,6 +158,13 @@ func (y *sys) ops(s *dvsim.Sim) []explore.Op {
 	if y.holds {
 		if len(s.Held) > 0 {
 			ops = append(ops, explore.Op{Name: "Rl"})
+			for a := 0; a < n; a++ {
+				if s.Nodes[a].Up && s.HasSilentNeighbor(a) && s.HeldAt(a) {
+					// the held tasks of a race checkDeadNeighbors for dv.mutex: whatever they do
+					// before locking happens first, then the dead check, then the rest of them
+					ops = append(ops, explore.Op{Name: fmt.Sprintf("DcR(%d)", a)})
+				}
+			}
 		} else {
 			for a := 0; a < n; a++ {
 				for b := 0; b < n; b++ {
@@ -218,6 +227,9 @@ func applyOp(s *dvsim.Sim, nm string) {
 	case strings.HasPrefix(nm, "Dc("):
 		fmt.Sscanf(nm, "Dc(%d)", &a)
 		s.DeadCheck(a)
+	case strings.HasPrefix(nm, "DcR("):
+		fmt.Sscanf(nm, "DcR(%d)", &a)
+		s.DeadCheckRace(a)
 	case strings.HasPrefix(nm, "LD("):
 		fmt.Sscanf(nm, "LD(%d,%d)", &a, &b)
 		s.LinkDown(a, b)
@@ -305,6 +317,7 @@ func (y *sys) CheckState(i any) []report.Violation {
 		ref := dvsim.NewSim(y.g)
 		converge(ref)
 		y.expect = ref.Snap().BestTables()
+		ref.Close()
 		l.Invalidate() // NewSim reset the global clock and task queue
 	}
 	defer l.Invalidate()
@@ -451,7 +464,7 @@ func build(cfg string) explore.System {
 			converge(s) // these families start from the fixed point of the initial topology
 		}
 	}
-	y.m = dvsim.NewMachine(g, init, applyOp)
+	y.m = dvsim.NewMachineOpt(g, init, applyOp, dvsim.Options{}, "C18|"+cfg)
 	y.opsCache, y.fromCache = map[string][]explore.Op{}, map[string]string{}
 	return y
 }
@@ -718,6 +731,7 @@ func main() {
 	}
 	if _, w := explore.IsWorker(); !w {
 		dvsim.ResetTraceDir("C18")
+		dvsim.ResetFallbackDir("C18")
 	}
 	explore.Main(explore.Spec{
 		ID: "C18", PanicClause: "C18.panic", Build: build, Configs: configs,
@@ -737,13 +751,15 @@ func main() {
 			"clock abstraction: IsDead is only evaluated right after a step longer than RouterDeadInterval in which exactly the live neighbours sent heartbeats (event Dc); a restarted router boots with a millisecond clock beyond every sequence number of its previous incarnation",
 			"equal canonical state (live topology, neighbour tables with sequence numbers as relations, RIB costs below infinity, parked fetches) implies equal futures",
 			"fault configurations start from the fixed point of the intact topology and inject faults in fixed points only (thorough adds faultany configurations: cold start, faults in every state); the number of fault/repair events per history is bounded (2 quick, 3 thorough); delivery deviations (parked / timed-out fetch) are bounded (1 quick, 2 thorough) and used on graphs with <= 3 (quick) / <= 4 (thorough) links",
-			"successor states are computed by restoring saved table contents into the live router objects and executing one operation; restores are cross-checked against plain re-execution (first 25 and every 400th per worker; a differential run with VERIF_DV_NOCACHE=1 gives identical state and transition counts)",
-			"task interleaving: spawned tasks run FIFO to quiescence per event, except in the hold configurations, where the ribUpdate task spawned by advertDataHandler for one exchange per history is delayed past arbitrary later events (exchanges, faults, dead checks) and then released",
+			"successor states are computed by restoring saved table contents into the live router objects and executing one operation; restores are cross-checked against plain re-execution (first 25 and every 400th per worker; a differential run with VERIF_DV_NOCACHE=1 gives identical state and transition counts); on a mismatch (router state the save/restore hooks do not cover) the configuration is computed by plain re-execution from then on and listed in the evidence",
+			"task interleaving: spawned tasks run FIFO to quiescence per event, except in the hold configurations, where the ribUpdate task spawned by advertDataHandler for one exchange per history is delayed past arbitrary later events (exchanges, faults, dead checks) and then released, or (event DcR) races checkDeadNeighbors for dv.mutex with real goroutines: whatever the held task does before locking runs first, then the dead check, then the rest of the task; other pre-lock / mid-task preemptions are not modelled",
+			"the management commands replayed by the harness are those the real nfdc loop (NfdMgmtThread.Start, one real goroutine per router) hands to the engine",
 			"graphs marked d=N are explored to depth N only; their remaining state space is covered by one schedule (round-robin; orders=K: K round-robin schedules with the routers visited in different orders) per frontier state",
 			"topologies are enumerated up to isomorphism plus hand-labelled 5-router meshes; tie-breaks depend on name hashes, so other labellings of the same graph are different experiments that are only partly covered by varying the closing order",
 		},
 		Extra: func(rep *report.Reporter, cov report.Coverage) {
 			dvsim.AnalyseC18(rep, cov)
+			cov["configs_computed_by_plain_reexecution_after_restore_mismatch"] = dvsim.FallbackConfigs("C18")
 		},
 	})
 }
